@@ -144,8 +144,8 @@ def mm_cases(tier, seed):
         for j in range(nm):
             p0 = tpx if j == 0 else float(rng.choice([80, 120, 160]))
             m = market_with_history(sim, j, "m%d" % j, [p0, p0], fund if j == 0 else 50.0, running=False, trade=False)
-            bb = rng.choice([0, 0, rng.randint(40, 99)])
-            bs = rng.choice([0, 0, rng.randint(100, 220)])
+            bb = rng.choice([0, 0, rng.randint(40, 99), rng.randint(40, 170)])
+            bs = rng.choice([0, 0, rng.randint(100, 220), (bb or 60) + rng.randint(1, 40)])    # (the best bid of one market may lie above the best ask of another)
             if bb:
                 m._add_order(Order(agent_id=99, market_id=j, is_buy=True, kind=LIMIT_ORDER, volume=1, price=float(bb)))
                 if rng.random() < 0.5:
@@ -276,6 +276,35 @@ def share_cases(tier, seed):
     return out
 
 
+def pop_cases(tier, seed):
+    """FCN agents as the RUNNER builds them from one configuration section (one settings entry for the whole group): every
+    agent's mean reversion time is the configured one or, when none is configured, its OWN time window"""
+    from pams.runners.sequential import SequentialRunner
+    rng = random.Random(sub_seed(seed, "pop"))
+    out = []
+    for i in range(8 if tier == "quick" else 120):
+        cfgtr = rng.choice([-1, -1, 7])
+        a = {"class": "FCNAgent", "numAgents": rng.randint(2, 9), "markets": ["M"], "assetVolume": 50, "cashAmount": 10000,
+             "fundamentalWeight": {"expon": [1.0]}, "chartWeight": {"expon": [0.5]}, "noiseWeight": {"expon": [1.0]}, "noiseScale": 0.001,
+             "timeWindowSize": [10, 60], "orderMargin": [0.0, 0.1]}
+        if cfgtr >= 0:
+            a["meanReversionTime"] = cfgtr
+        cfg = {"simulation": {"markets": ["M"], "agents": ["A"], "sessions": [
+            {"sessionName": 0, "iterationSteps": 2, "withOrderPlacement": True, "withOrderExecution": True, "withPrint": False}]},
+            "M": {"class": "Market", "tickSize": 0.01, "marketPrice": 300.0}, "A": a}
+        case = {"c": "pop", "aid": 0, "out": "ok", "ords": [], "cfgtr": cfgtr, "ags": []}
+        try:
+            with warnings.catch_warnings():
+                warnings.simplefilter("ignore")
+                r = SequentialRunner(settings=cfg, prng=random.Random(rng.randrange(2 ** 30)))
+                r._setup()
+            case["ags"] = [[int(x.time_window_size), int(x.mean_reversion_time)] for x in r.simulator.agents]
+        except Exception as ex:  # noqa: BLE001
+            case["out"] = type(ex).__name__
+        out.append(case)
+    return out
+
+
 def all_cases(tier, seed):
     return {"fcn": fcn_cases(tier, seed), "mm": mm_cases(tier, seed), "arb": arb_cases(tier, seed), "arb2": arb2_cases(tier, seed),
-            "share": share_cases(tier, seed)}
+            "share": share_cases(tier, seed), "pop": pop_cases(tier, seed)}
